@@ -39,10 +39,10 @@ let () =
         if b usedict then decompress_usingDict bdec s (bytes_of_hex src) (zs cap) !cur_dict o
         else decompress bdec s (bytes_of_hex src) (zs cap) o in
       put id s';
-      Printf.sprintf "%s %s %s %s %s %s %s st=%s,%s,%s,%s,%s,%s,%b" (zstr r.r_consumed) (zstr r.r_produced) (zstr r.r_ret)
+      Printf.sprintf "%s %s %s %s %s %s %s st=%s,%s,%s,%s,%s,%s,%b cap=%s" (zstr r.r_consumed) (zstr r.r_produced) (zstr r.r_ret)
         (if r.r_fuel then "FUEL" else "ok") (if s'.d_oob then "OOB" else "ok") (stage_name s'.d_stage) (show_bytes r.r_out)
         (zstr (stage_num s'.d_stage)) (zstr s'.d_remaining) (zstr s'.d_tmpInSize) (zstr s'.d_tmpInTarget)
-        (zstr s'.d_maxBlock) (zstr s'.d_maxBuf) s'.d_skip
+        (zstr s'.d_maxBlock) (zstr s'.d_maxBuf) s'.d_skip (zstr s'.d_tmpInCap)
     | _ -> "badargs");
   (* info <id> <src> -> consumed ret fuel stage none|<fields> *)
   reg "info" (function [id; src] ->
